@@ -43,11 +43,26 @@ class Child:
         self.proc = Proc(["bash", "-c", "ulimit -v 6000000; exec " + exe], timeout=REQ_TIMEOUT)
         self.requests = 0
 
-    def run(self, files, timeout=None, **kw):
+    def run(self, files, timeout=None, disk=False, **kw):
         req = {"files": files, "max_passes": CAP_WATCH, "stop_on_repeat": False}
         req.update(kw)
         self.requests += 1
-        return self.proc.call(req, timeout=timeout)
+        if not disk:
+            return self.proc.call(req, timeout=timeout)
+        # the project is written to a scratch directory and read through the file-system source (as `mos build` does)
+        workdir = os.path.join(common.CACHE, "work")
+        os.makedirs(workdir, exist_ok=True)
+        d = tempfile.mkdtemp(prefix="c06p_", dir=workdir)
+        try:
+            for name, text in files.items():
+                path = os.path.join(d, name)
+                os.makedirs(os.path.dirname(path), exist_ok=True)
+                with open(path, "w", encoding="utf-8") as f:
+                    f.write(text)
+            req["dir"] = d
+            return self.proc.call(req, timeout=timeout)
+        finally:
+            shutil.rmtree(d, ignore_errors=True)
 
     def stop(self):
         self.proc.stop()
@@ -63,6 +78,8 @@ DIAG_KINDS = [
     (r"cannot apply operation|unknown function|expected \d+ arguments|could not interpolate", "evaluation", 4),
     (r"does not evaluate to an integer", "not_an_integer", 5),
     (r"must lie between 0 and \$10000|relocated address would be negative", "pc_out_of_range", 8),
+    (r"cannot loop .* times", "loop_budget", 9),
+    (r"may be nested at most \d+ levels deep", "nested_too_deep", 10),
     (r"cyclic import", "cyclic_import", 6),
     (r"did not converge after", "no_convergence", 7),
     (r"unknown identifier", "unknown_identifier", 8),
@@ -71,6 +88,7 @@ DIAG_KINDS = [
     (r"cannot redefine symbol|cannot import an already defined", "redefinition", 11),
     (r"file not found", "file_not_found", 12),
     (r"is not assigned to any bank|bank .* (not|unknown)|Unknown definition type|does not evaluate to a string|may not be negative|"
+     r"the size of bank|"
      r"should have be .* bytes|exceeds maximum size|"
      r"could not evaluate configuration key|required|not allowed|field", "configuration", 13),
 ]
@@ -111,17 +129,11 @@ def bad_locations(diags):
 
 
 class Known:
-    """the Known_* predicates of model/Sites.v evaluated on an input (graph / value extraction from the text is Python)"""
+    """No Known_* class is left for C06: every crash / hang / panic is a violation.  What remains here are the extractors
+    the site-directed streams use to hand program structure (macro invocation graphs) to the model."""
 
     def __init__(self, model):
         self.model = model
-
-    def deep_nesting(self, files):
-        for t in files.values():
-            r = self.model.call({"cmd": "known", "text": T(t)})
-            if r.get("deep"):
-                return True
-        return False
 
     @staticmethod
     def strip(text):
@@ -157,74 +169,7 @@ class Known:
             return sorted({idx[w.lower()] for w in re.findall(r"([A-Za-z_][A-Za-z0-9_]*)\s*\(", t) if w.lower() in idx})
         return [calls(top)] + [calls("\n".join(bodies[n])) for n in names]
 
-    def macro_recursion(self, files, greedy=True):
-        g = self.macro_graph(files)
-        if len(g) <= 1:
-            return False
-        if greedy:       # greedy analysis also expands every uninvoked macro
-            g = [sorted(set(g[0]) | set(range(1, len(g))))] + g[1:]
-        return bool(self.model.call({"cmd": "depth", "kind": "macro", "graph": g}).get("known"))
-
-    def const_env(self, files):
-        """constants / variables of the program that can be evaluated without labels (what pass 0, which has no segment and
-        therefore defines no label, can evaluate); scoping is ignored (over-approximation: first definition wins)"""
-        defs = []
-        for t in files.values():
-            for m in re.finditer(r"\.(?:const|var)\s+([A-Za-z_][A-Za-z0-9_]*)\s*=\s*([^\n{}]+)", self.strip(t), flags=re.I):
-                defs.append((m.group(1), m.group(2).strip()))
-        env = {}
-        for _ in range(4):
-            for name, expr in defs:
-                if name in env:
-                    continue
-                r = self.model.call({"cmd": "stmt", "kind": "value", "prefix": True, "text": T(expr),
-                                     "env": {"syms": [[[T(k)], str(v)] for k, v in env.items()], "pc": None}})
-                v = r.get("value")
-                if isinstance(v, int) or isinstance(v, str) and re.fullmatch(r"-?\d+", v):
-                    env[name] = int(v)
-        return env
-
-    def literal_values(self, files, pattern, env=None):
-        vals = []
-        syms = [[[T(k)], str(v)] for k, v in (env or {}).items()]
-        for t in files.values():
-            for m in re.finditer(pattern, self.strip(t), flags=re.I):
-                r = self.model.call({"cmd": "stmt", "kind": "value", "prefix": True, "text": T(m.group(1).strip()),
-                                     "env": {"syms": syms, "pc": None if env is not None else PC0}})
-                v = r.get("value")
-                if isinstance(v, int):
-                    vals.append(v)
-                elif isinstance(v, str) and re.fullmatch(r"-?\d+", v):
-                    vals.append(int(v))
-                else:
-                    vals.append(None)        # not evaluable without the program's symbols
-        return vals
-
-    def loop_huge(self, files):
-        for v in self.literal_values(files, r"\.loop\s+([^{\n]+)\{"):
-            if v is None or self.model.call({"cmd": "loop", "count": str(v)}).get("known"):
-                return True
-        return False
-
-    def bank_huge(self, files):
-        for v in self.literal_values(files, r"\bsize\s*=\s*([^\n{}]+?)(?=\s+(?:fill|name|filename|create-segment)\s*=|\s*\}|\n)"):
-            if v is None or self.model.call({"cmd": "bank", "size": str(v), "len": "0", "fill": True}).get("known"):
-                return True
-        return False
-
     def classify(self, files, kind):
-        """kind: 'abort' (process died), 'hang', 'panic' -> name of a Known_* class that holds of the input, or None"""
-        if kind == "abort":
-            if self.deep_nesting(files):
-                return "Known_deep_nesting"
-            if self.macro_recursion(files):
-                return "Known_macro_recursion"
-            if self.bank_huge(files):
-                return "Known_bank_size_huge"
-        if kind == "hang" and self.loop_huge(files):
-            return "Known_loop_count_huge"
-        if kind == "hang" and self.bank_huge(files):
-            return "Known_bank_size_huge"
         return None
 
 
@@ -313,8 +258,10 @@ def gen_stmt(rng, names, macros, depth):
         return "{ %s }" % gen_stmt(rng, names, macros, depth - 1)
     if r < 0.93:
         return ".var v%d = %s" % (rng.randrange(3), e(1))
-    if r < 0.96:
+    if r < 0.955:
         return '.segment "s%d" { nop }' % rng.randrange(3)
+    if r < 0.965:
+        return '.define segment { name = "s%d" start = $%04x }' % (rng.randrange(3), rng.choice([0x1000, 0x1001, 0x2000, 0x4000]))
     return rng.choice([".assert 1 == 1", ".trace (a)", ".test \"t\" { nop }", "// c", "/* b */ nop"])
 
 
@@ -450,6 +397,8 @@ class Run:
         if timeout:
             req["_timeout"] = timeout
         reply = self.child.run(files, timeout=timeout, **kw)
+        if kw.get("disk") and isinstance(reply, dict):
+            reply = json.loads(re.sub(r"/[^\"\s]*?/c06p_[A-Za-z0-9_]+/", "", json.dumps(reply)))     # scratch directory names are not part of the outcome
         self.chk.count(1, nontrivial)
         self.bump("stream:" + stream.split(":")[0])
         fails = self.oracle(stream, files, reply, req)
@@ -491,7 +440,7 @@ class Run:
             return "panic"
         if r.get("r") == "diag":
             return "diag:" + {1: "align_not_positive", 2: "name_with_period", 3: "segment_out_of_range", 4: "evaluation", 5: "not_an_integer",
-                               8: "pc_out_of_range"}[int(r["d"])]
+                               8: "pc_out_of_range", 9: "loop_budget", 10: "nested_too_deep"}[int(r["d"])]
         if r.get("r") in ("emitted", "nothing"):
             return "ok"
         return "noparse"
@@ -553,22 +502,13 @@ class Run:
             pred = "panic" if r["r"] == "panic" else ("diag:" + {3: "segment_out_of_range", 8: "pc_out_of_range"}[int(r["d"])] if r["r"] == "diag" else "ok")
             reply, fails = self.case("sweep_segment", {"main.asm": prog})
             self.expect("sweep_segment", {"main.asm": prog}, reply, fails, pred, "segment start=%d pc=%d then nop" % (s, p))
-        # ---- bank options size / fill: the model predicts diagnostic / padding size; beyond 2^30 bytes of padding it is the known finding
+        # ---- bank options size / fill: the model predicts diagnostic / the padding built in memory (at most 16 MiB)
         for v in opts:
             for fill in (True, False):
-                if fill and self.model.call({"cmd": "bank", "size": str(v), "len": "1", "fill": True}).get("known") and \
-                        (v < 2 ** 40 or self.dist.get("bank_huge_runs", 0) >= 2):
-                    continue                 # gigabytes of padding are slow; terabytes fail at once (two aborted children are enough)
                 prog = '.define bank { name = "b" size = %s%s }\n.define segment { name = "a" start = $1000 bank = "b" }\nnop\n' % (lit(v), " fill = 7" if fill else "")
                 r = self.model.call({"cmd": "bank", "size": str(v), "len": "1", "fill": fill})
-                if r["r"] == "ok" and r.get("known"):
-                    pred = "abort"
-                    self.bump("bank_huge_runs")
-                else:
-                    pred = "ok" if r["r"] == "ok" else "diag:configuration"
+                pred = "ok" if r["r"] == "ok" else ("panic" if r["r"] == "panic" else "diag:configuration")
                 reply, fails = self.case("sweep_bank", {"main.asm": prog})
-                if reply is not None and pred == "abort" and not reply.get("crash"):
-                    pred = "ok"                # enough memory for this size on this machine: fine
                 self.expect("sweep_bank", {"main.asm": prog}, reply, fails, pred, "bank size %d fill=%s" % (v, fill))
         # ---- names
         for name in ["a", "a.b", ".", "a.", "..", "x y", "", "é.é", "default", "$dummy"]:
@@ -587,18 +527,22 @@ class Run:
                                            {"files": {"main.asm": prog}})
             prog = '.define segment { name = "s" }\n.segment "%s" { nop }\n' % name
             self.case("sweep_name", {"main.asm": prog})
-        # ---- .loop counts: small ones run; huge ones are the known finding (one is really run under the watchdog)
-        for v in [0, -1, 1, 3, 255, 256, 4095, -2 ** 63]:
+        # ---- .loop counts against the budget of the pass (counts between 4097 and the limit are legal but take minutes in
+        #      a debug build -- one scope per iteration, quadratic symbol lookup -- and are not run)
+        for v in [0, -1, 1, 3, 255, 256, 4095, -2 ** 63, 65537, 2 ** 31, 2 ** 63 - 1]:
             for body in ["", "nop"]:
                 prog = ".loop %s { %s }\nrts\n" % (lit(v), body)
-                r = self.model.call({"cmd": "loop", "count": str(v)})
+                r = self.model.call({"cmd": "loop", "used": "0", "count": str(v)})
+                pred = "ok" if r["r"] == "ok" else "diag:loop_budget"
                 reply, fails = self.case("sweep_loop", {"main.asm": prog})
-                self.expect("sweep_loop", {"main.asm": prog}, reply, fails, "ok", "`.loop %d`" % v)
-        r = self.model.call({"cmd": "loop", "count": str(I64_MAX)})
-        if r.get("known"):
-            prog = ".loop %d { }\n" % I64_MAX
-            reply, fails = self.case("sweep_loop_huge", {"main.asm": prog}, timeout=HANG_WATCHDOG, stages=["codegen"])
-            self.expect("sweep_loop_huge", {"main.asm": prog}, reply, fails, "hang", "`.loop 2^63-1 { }` (2^63-1 iterations)")
+                self.expect("sweep_loop", {"main.asm": prog}, reply, fails, pred, "`.loop %d`" % v)
+        for (a, b) in [(16, 16), (3, 70000), (2, 32769 * 0 + 5)]:
+            prog = ".loop %d { .loop %d { nop } }\n" % (a, b)
+            r1 = self.model.call({"cmd": "loop", "used": "0", "count": str(a)})
+            r2 = self.model.call({"cmd": "loop", "used": r1.get("v", "0"), "count": str(b)}) if r1["r"] == "ok" else r1
+            pred = "ok" if r2["r"] == "ok" else "diag:loop_budget"
+            reply, fails = self.case("sweep_loop", {"main.asm": prog})
+            self.expect("sweep_loop", {"main.asm": prog}, reply, fails, pred, "nested loops %d x %d" % (a, b))
 
     def import_graphs(self, n):
         rng = self.rng
@@ -643,6 +587,64 @@ class Run:
             if (pred["r"] == "cycle_reported") != cyc:
                 self.chk.tie_break("correspondence:site", "import graph %s: model predicts %s, implementation %s %s" % (graph, pred["r"], cls, det), {"files": files})
 
+    def import_paths(self, n):
+        """import graphs whose edges are spelled with `./`, `../`, subdirectories and redundant components: the same file is
+        reached under different spellings; read from disk like `mos build` does"""
+        import posixpath
+        rng = self.rng
+        pool = ["main.asm", "lib/util.asm", "lib/deep/x.asm", "other.asm"]
+        for i in range(n):
+            nf = rng.randrange(1, 5)
+            names = pool[:nf]
+            graph, files = [], {}
+            for k, name in enumerate(names):
+                here = posixpath.dirname(name)
+                lines, edges = [], []
+                for _ in range(rng.choice([0, 1, 1, 2])):
+                    t = rng.randrange(nf)
+                    rel = posixpath.relpath(names[t], here or ".")
+                    spell = rng.choice([rel, "./" + rel, posixpath.join("..", posixpath.basename(here), rel) if here else "./" + rel,
+                                        rel.replace("/", "/./"), posixpath.join(".", ".", rel)])
+                    if posixpath.normpath(posixpath.join(here, spell)) != names[t]:
+                        spell = rel
+                    edges.append(t)
+                    lines.append(rng.choice(['.import * from "%s"', '.import * as q%d from "%%s"' % k, '.import x%d from "%%s"' % t]) % spell)
+                lines.append("x%d: nop" % k)
+                files[name] = "\n".join(lines) + "\n"
+                graph.append(edges)
+            pred = self.model.call({"cmd": "depth", "kind": "import", "graph": graph})
+            reply, fails = self.case("import_paths", files, disk=True, stages=["codegen"], sample=(i < 2))
+            if reply is None or reply.get("crash") or reply.get("hang"):
+                continue
+            self.bump("import_paths:" + pred["r"])
+            cls, det = stage_outcome(reply.get("codegen"))
+            cyc = cls == "diag" and "cyclic_import" in det
+            if reply.get("parse", {}).get("errors"):
+                self.chk.tie_break("correspondence:site", "import graph with relative paths %s: every file exists, yet the parser reports %s"
+                                   % (graph, reply["parse"]["errors"][0]["msg"]), {"files": files})
+            elif (pred["r"] == "cycle_reported") != cyc:
+                self.chk.tie_break("correspondence:site", "import graph with relative paths %s: model predicts %s, implementation %s %s" % (graph, pred["r"], cls, det), {"files": files})
+
+    def listing_redefined_segments(self):
+        """the same segment name defined more than once, with code before / between / after the definitions: source-map entries
+        of the earlier incarnation can start inside the final range and be longer than what the final segment holds"""
+        rng = self.rng
+        bodies = ["nop", "lda $1234", "lda #1", ".byte 1,2,3,4,5", "jmp $1000\nnop", ".word $1234\n.byte 9", ""]
+        n = 0
+        for b1 in bodies:
+            for b2 in bodies:
+                for (s1, s2) in [("$1000", "$1000"), ("$1000", "$1001"), ("$1001", "$1000"), ("$1000", "$0fff"), ("$1000", "$1002")]:
+                    if rng.random() < 0.45:
+                        continue
+                    how = rng.choice(["define", "define", "bank"])
+                    if how == "define":
+                        src = '.define segment { name = "a" start = %s }\n%s\n.define segment { name = "a" start = %s }\n%s\n' % (s1, b1, s2, b2)
+                    else:
+                        src = '.define segment { name = "a" start = %s }\n%s\n.define bank { name = "a" create-segment = true }\n.segment "a" { %s }\n' % (s1, b1, b2.replace("\n", " "))
+                    self.case("listing_redefined", {"main.asm": src}, stages=["codegen"])
+                    n += 1
+        self.bump("listing_redefined_cases", n)
+
     def macro_graphs(self, n):
         rng = self.rng
         for i in range(n):
@@ -657,24 +659,41 @@ class Run:
             files = {"main.asm": "\n".join(lines) + "\n"}
             g = self.known.macro_graph(files)
             pred = self.model.call({"cmd": "depth", "kind": "macro", "graph": g})
-            if pred["r"] == "unbounded" and self.dist.get("macro:unbounded", 0) >= 3:
-                continue        # each one costs a process restart
             self.bump("macro:" + pred["r"])
             reply, fails = self.case("macro_graph", files, stages=["codegen"])
-            self.expect("macro_graph", files, reply, fails, "abort" if pred["r"] == "unbounded" else "ok", "macro invocation graph %s" % g)
-            if pred["r"] != "unbounded":
-                self.case("macro_graph_greedy", files, stages=["greedy", "format"])
+            self.expect("macro_graph", files, reply, fails,
+                        {"unbounded": "abort", "cycle_reported": "diag:nested_too_deep"}.get(pred["r"], "ok"), "macro invocation graph %s" % g)
+            # greedy analysis also expands uninvoked macros; a cycle there is not followed past the limit, silently
+            self.case("macro_graph_greedy", files, stages=["greedy", "format"])
+        # recursion that the program bounds itself
+        for d in [1, 5, 20, 30, 40]:
+            files = {"main.asm": ".macro m(n) { .if n > 0 { m(n - 1) } }\nm(%d)\n" % d}
+            r = self.model.call({"cmd": "enter", "kind": "codegen", "depth": 2 * d + 1})   # m, .if, m, .if, ..., m
+            reply, fails = self.case("macro_countdown", files)
+            self.expect("macro_countdown", files, reply, fails, "ok" if r["r"] == "ok" else "diag:nested_too_deep", "macro counting down from %d" % d)
 
     def nesting(self):
-        lim = int(self.model.call({"cmd": "consts"})["nesting_limit"])
-        for d in [1, 10, lim // 2, lim]:
-            for o, c in (("{ ", " }"), ("(", ")")):
-                src = (o * d + "nop" + c * d + "\n") if o[0] == "{" else (".byte " + o * d + "1" + c * d + "\n")
-                reply, fails = self.case("nesting", {"main.asm": src})
-                self.expect("nesting", {"main.asm": src}, reply, fails, "ok", "nesting depth %d" % d)
-        src = "{ " * 3000 + "nop" + " }" * 3000 + "\n"
-        reply, fails = self.case("nesting_deep", {"main.asm": src}, stages=["codegen"])
-        self.expect("nesting_deep", {"main.asm": src}, reply, fails, "abort", "3000 nested braces")
+        c = self.model.call({"cmd": "consts"})
+        lim = int(c["parser_nesting_limit"] or 10 ** 9)
+        for d in [1, 10, lim // 2, lim - 1, lim, lim + 1, lim + 6, 300, 3000]:
+            for shape in ("braces", "parens", "calls", "ifs", "labels"):
+                if d > lim + 6 and shape in ("ifs", "labels"):
+                    continue
+                src = {"braces": "{ " * d + "nop" + " }" * d, "parens": ".byte " + "(" * d + "1" + ")" * d,
+                       "calls": ".byte " + "defined(" * d + "x" + ")" * d, "ifs": ".if 1 { " * d + "nop" + " }" * d,
+                       "labels": "".join("l%d: { " % i for i in range(d)) + "nop" + " }" * d}[shape] + "\n"
+                # what the guards count: containers around the innermost text (parser) / tokens that contain tokens (code generator)
+                rp = self.model.call({"cmd": "enter", "kind": "parser", "depth": d - 1})
+                rc = self.model.call({"cmd": "enter", "kind": "codegen", "depth": d - 1}) if shape in ("braces", "ifs", "labels") else {"r": "ok"}
+                pred = "diag:parse" if rp["r"] != "ok" else ("diag:nested_too_deep" if rc["r"] != "ok" else "ok")
+                reply, fails = self.case("nesting:" + shape, {"main.asm": src})
+                self.expect("nesting", {"main.asm": src}, reply, fails, pred, "%s nested %d deep" % (shape, d))
+        # a syntax error at the bottom of nested parentheses / argument lists: one attempt per level, not 2^n
+        for d in [10, 20, 40, 60]:
+            for src in [".byte " + "(" * d + "@" + ")" * d, "lda " + "(" * d + "@" + ")" * d + ",x", ".if " + "defined(" * d + "@" + ")" * d + " { nop }",
+                        ".byte !-" + "(" * d + "1" + ")" * d + " + !" + "(" * d + "@"]:
+                reply, fails = self.case("nesting:failing", {"main.asm": src + "\n"}, stages=["codegen"])
+                self.expect("nesting", {"main.asm": src}, reply, fails, "diag:parse", "syntax error inside %d nested parentheses" % d)
 
     def greedy_templates(self):
         for body in [".if 0 { nop } else { lda #1 }\nl: nop", ".if 1 { nop } else { .if 0 { nop }\nnop }\nnop",
@@ -809,6 +828,8 @@ def run(chk):
     R.corpus()
     R.sweep_sites(thorough)
     R.import_graphs(400 if thorough else 60)
+    R.import_paths(300 if thorough else 50)
+    R.listing_redefined_segments()
     R.macro_graphs(200 if thorough else 30)
     R.nesting()
     R.greedy_templates()
@@ -827,8 +848,8 @@ def run(chk):
     chk.assumptions = [
         "stack depth and wall-clock are runtime behaviour: the model expresses them as recursion depth (import / macro graphs, nesting) and iteration / pass counts",
         "the evaluator model computes in Z; that evaluated values fit in 64 bits is a hypothesis of C06_stmt_align_total (evaluates_in_i64)",
-        "Known_* classification of generated / mutated inputs extracts macro graphs and `* =` / start / pc / .loop arguments from the text in Python, the predicates themselves are the extracted Coq definitions",
-        "a hang verdict is only given by hook H1 (more than %d distinct passes) or by a watchdog >= 400x the normal request time (`.loop` with 2^63-1 iterations)" % CAP_WATCH,
+        "no Known_* class is left: every panic / abort / hang on any generated input is a violation",
+        "a hang verdict is only given by hook H1 (more than %d distinct passes) or by the request watchdog of %d s (>= 1000x the normal request time)" % (CAP_WATCH, int(REQ_TIMEOUT)),
     ]
     return chk.finish(extra_trusted=["translate/t_c06loop.py, translate/t_c06sites.py, translate/t_evaluator.py (recognise guarded / unguarded shapes)",
                                      "hook H1 (mos-core/src/codegen/mod.rs, cfg mos_verif): per-pass digests; harness_c06/c06probe; extract/driver_c06.ml"])
